@@ -663,7 +663,14 @@ Definition step (s : state) (e : event) : state * outcome :=
         end
       else (s, OErr OtherErr)
   | New T =>
-      if exists_tab s T then (s, OErr ValueErr) else (mkS (T :: tabs s) (comp s), OOk)
+      (* T = PeriodicTable(name); mass.init(T): the isotopes of a table exist only after mass.init *)
+      if exists_tab s T then (s, OErr ValueErr)
+      else
+        let s0 := mkS (T :: tabs s) (comp s) in
+        match run_init None FUEL "mass.init" T (comp s0 0) with
+        | (x, None) => (upd s0 0 x, OOk)
+        | (x, Some er) => (upd s0 0 x, OErr er)
+        end
   | Parse T => if exists_tab s T then (s, OBool true) else (s, OErr OtherErr)
   | Pickle T a => if exists_tab s T then (s, OBool true) else (s, OErr OtherErr)
   end.
